@@ -9,12 +9,12 @@ def sh(cmd, cwd, timeout=900):
     return r.returncode, r.stdout
 if not os.path.isdir(WT):
     print(sh('git -C /repo worktree add -q %s HEAD' % WT, '/')[1])
-results={}
+results=json.load(open('/tmp/confirm_results.json')) if os.path.exists('/tmp/confirm_results.json') and os.environ.get('CONFIRM_MERGE') else {}
 only=sys.argv[1:]
 for d in sorted(glob.glob('/tmp/wt/C??')):
     pid=os.path.basename(d)
     if only and pid not in only: continue
-    for k in (1,2):
+    for k in (1,2,3):
         diff=os.path.join(d,'MUTANT_%d.diff'%k)
         if not os.path.exists(diff): continue
         key='%s-%d'%(pid,k)
